@@ -1,25 +1,308 @@
 package main
 
 import (
+	"fmt"
+	"go/types"
+	"sort"
+	"strings"
+
 	"golang.org/x/tools/go/ssa"
 )
 
-// symRange: iteration over a symbolic (SMT-array) map. Filled in by the loop rule.
+// symRange: iteration over a symbolic (SMT-array) map, handled with the map-range loop rule:
+//   entry:  Inv(it0, it0, {}) is an obligation;
+//   header: the map, the ghost set `visited` and everything the body assigns are havocked, Inv is assumed;
+//   body:   entered with an arbitrary key that is present and not yet visited; at the back edge
+//           Inv(it, it0, visited+{k}) is an obligation and the path ends;
+//   exit:   every present key has been visited.
 type symRange struct {
 	cell    int
 	m0      Term
 	visited Term
-	nilT    Term
+	key     Term
+	keySort *Sort
+	valSort *Sort
+	absent  Term
+	ordinal int
+	fn      *ssa.Function
+	inBody  bool
+}
+
+func constArr(ks, vs *Sort, v Term) Term {
+	return mkT(fmt.Sprintf("((as const (Array %s %s)) %s)", ks.Name, vs.Name, v.S), canonSort(fmt.Sprintf("(Array %s %s)", ks.Name, vs.Name)))
 }
 
 func (e *Engine) symRangeInit(st *State, fr *Frame, in *ssa.Range, obj *MapObj, cell int) *symRange {
-	return &symRange{cell: cell, m0: obj.Arr, nilT: obj.NilT}
+	eff := obj.Arr
+	if obj.NilT.S != "" && !obj.NilT.IsFalse() {
+		eff = Ite(obj.NilT, constArr(obj.KeySort, obj.ValSort, obj.Absent), obj.Arr)
+	}
+	return &symRange{cell: cell, m0: eff, keySort: obj.KeySort, valSort: obj.ValSort, absent: obj.Absent,
+		ordinal: loopOrdinal(in), fn: fr.fn}
+}
+
+// loopOrdinal numbers the range/for loops of a function in source order (1-based) by the position of the Range.
+func loopOrdinal(in ssa.Instruction) int {
+	fn := in.Parent()
+	var poss []int
+	for _, b := range fn.Blocks {
+		for _, i := range b.Instrs {
+			switch i.(type) {
+			case *ssa.Range:
+				poss = append(poss, int(i.Pos()))
+			}
+		}
+	}
+	sort.Ints(poss)
+	for n, p := range poss {
+		if p == int(in.Pos()) {
+			return n + 1
+		}
+	}
+	return 0
+}
+
+// loopBlocks returns the natural loop of header (blocks that can reach the header again without leaving it).
+func loopBlocks(header *ssa.BasicBlock) map[*ssa.BasicBlock]bool {
+	reach := map[*ssa.BasicBlock]bool{}
+	var fwd func(b *ssa.BasicBlock)
+	fwd = func(b *ssa.BasicBlock) {
+		if reach[b] {
+			return
+		}
+		reach[b] = true
+		for _, s := range b.Succs {
+			fwd(s)
+		}
+	}
+	for _, s := range header.Succs {
+		fwd(s)
+	}
+	in := map[*ssa.BasicBlock]bool{header: true}
+	// b is in the loop if header is reachable from b (within reach) - compute backwards from header
+	var back func(b *ssa.BasicBlock)
+	back = func(b *ssa.BasicBlock) {
+		for _, p := range b.Preds {
+			if reach[p] && !in[p] && header.Dominates(p) {
+				in[p] = true
+				back(p)
+			}
+		}
+	}
+	back(header)
+	return in
+}
+
+func (e *Engine) loopInvariants(fn *ssa.Function, ordinal int) []Clause {
+	name := fnName(fn)
+	// closures: contracts are keyed by the enclosing named function
+	for f := fn; f != nil; f = f.Parent() {
+		name = fnName(f)
+		if ct := e.contracts.lookup(name); ct != nil {
+			if fn.Parent() != nil {
+				// loops inside a closure are numbered per closure: key "closureIndex.ordinal" is not supported; use flat numbering
+			}
+			if cls, ok := ct.Loops[ordinal]; ok && f == fn {
+				return cls
+			}
+			if f != fn {
+				if cls, ok := ct.Loops[1000*closureIndex(fn)+ordinal]; ok {
+					return cls
+				}
+			}
+		}
+	}
+	return nil
+}
+
+// closureIndex: $N suffix of an anonymous function name.
+func closureIndex(fn *ssa.Function) int {
+	n := fn.Name()
+	if i := strings.LastIndex(n, "$"); i >= 0 {
+		var k int
+		fmt.Sscanf(n[i+1:], "%d", &k)
+		return k
+	}
+	return 0
+}
+
+// evalInvariant evaluates loop-invariant clauses with it/it0/visited bound.
+func (e *Engine) evalInvariant(st *State, cls []Clause, it, it0, visited Term, assume bool) []Term {
+	var out []Term
+	for _, cl := range cls {
+		env := &rEnv{e: e, pre: st, post: st, vars: map[string]Value{"it": sym(it), "it0": sym(it0), "visited": sym(visited)},
+			typs: map[string]types.Type{}, specs: e.contracts.specs}
+		if assume {
+			env.pol = -1
+			env.assuming = true
+		} else {
+			env.pol = 1
+		}
+		t := env.term(cl.Node)
+		if env.err != nil {
+			st.incomplete = "loop invariant does not evaluate: " + env.err.Error()
+			return nil
+		}
+		out = append(out, t)
+	}
+	return out
 }
 
 func (e *Engine) symRangeNext(st *State, fr *Frame, in *ssa.Next, it *rangeIter) bool {
-	st.incomplete = "range over a symbolic map without a loop invariant at " + e.pos(in.Pos())
-	e.endPath(st)
-	return false
+	sr := it.sym
+	cls := e.loopInvariants(fr.fn, sr.ordinal)
+	if cls == nil {
+		st.incomplete = fmt.Sprintf("range over a symbolic map without a loop invariant (loop %d of %s) at %s", sr.ordinal, fr.fn.Name(), e.pos(in.Pos()))
+		e.endPath(st)
+		return false
+	}
+	tt := in.Type().(*types.Tuple)
+	obj, _ := st.heap[sr.cell].(*MapObj)
+	stateKey := fmt.Sprintf("symiter/%d/%d", fr.id, in.Pos())
+	if st.visits[stateKey] > 0 {
+		// back edge: the invariant must hold again with the key added to visited
+		cur := obj.Arr
+		goals := e.evalInvariant(st, cls, cur, sr.m0, Store(st.loopVisited[stateKey], st.loopKey[stateKey], TTrue), false)
+		for i, g := range goals {
+			e.addSideObl(st, cls[i], "preserved", g)
+		}
+		return false // path ends at the cut point
+	}
+	st.visits[stateKey] = 1
+	// entry obligation
+	emptySet := constArr(sr.keySort, SBool, TFalse)
+	for i, g := range e.evalInvariant(st, cls, sr.m0, sr.m0, emptySet, false) {
+		e.addSideObl(st, cls[i], "entry", g)
+	}
+	// havoc what the loop assigns
+	arrSort := canonSort(fmt.Sprintf("(Array %s %s)", sr.keySort.Name, sr.valSort.Name))
+	cur := e.fresh(st, "it", arrSort)
+	visited := e.fresh(st, "visited", canonSort(fmt.Sprintf("(Array %s Bool)", sr.keySort.Name)))
+	nobj := obj.clone()
+	nobj.Arr = cur
+	nobj.NilT = TFalse
+	nobj.Fresh = false
+	st.heap[sr.cell] = nobj
+	e.havocLoopTargets(st, fr, in.Block())
+	for _, t := range e.evalInvariant(st, cls, cur, sr.m0, visited, true) {
+		st.assume(t)
+	}
+	if st.incomplete != "" {
+		e.endPath(st)
+		return false
+	}
+	// exit path
+	stExit := st.clone()
+	{
+		curE, visE, absent, vs := cur, visited, sr.absent, sr.valSort
+		stExit.addInst(sr.keySort, func(s *State, k Term) Term {
+			return Implies(Not(Eq(Select(curE, k, vs), absent)), Select(visE, k, SBool))
+		})
+	}
+	// body path
+	k := e.fresh(st, "rangekey", sr.keySort)
+	st.assume(Not(Eq(Select(cur, k, sr.valSort), sr.absent)))
+	st.assume(Not(Select(visited, k, SBool)))
+	if st.loopVisited == nil {
+		st.loopVisited = map[string]Term{}
+		st.loopKey = map[string]Term{}
+	} else {
+		nv := make(map[string]Term, len(st.loopVisited))
+		nk := make(map[string]Term, len(st.loopKey))
+		for a, b := range st.loopVisited {
+			nv[a] = b
+		}
+		for a, b := range st.loopKey {
+			nk[a] = b
+		}
+		st.loopVisited, st.loopKey = nv, nk
+	}
+	st.loopVisited[stateKey] = visited
+	st.loopKey[stateKey] = k
+	var val Value = sym(Select(cur, k, sr.valSort))
+	if sr.valSort == SJson {
+		val = VAbs{Kind: "json", ID: e.nextID(), Data: Select(cur, k, sr.valSort)}
+	}
+	// run the exit path first (it continues after the loop), then the body path (ends at the back edge)
+	b := in.Block()
+	idx := 0
+	for i, ins := range b.Instrs {
+		if ins == in {
+			idx = i
+		}
+	}
+	fr2regs := fr.regs
+	fr.regs[in] = VTuple{[]Value{sym(TFalse), e.zeroOf(tt.At(1).Type()), e.zeroOf(tt.At(2).Type())}}
+	e.runFrom(stExit, fr, b, idx+1)
+	fr.regs = fr2regs
+	fr.regs[in] = VTuple{[]Value{sym(TTrue), sym(k), val}}
+	return true
+}
+
+// havocLoopTargets havocks heap cells and maps assigned inside the loop whose header is `header`, and header phis.
+func (e *Engine) havocLoopTargets(st *State, fr *Frame, header *ssa.BasicBlock) {
+	blocks := loopBlocks(header)
+	for b := range blocks {
+		for _, ins := range b.Instrs {
+			switch x := ins.(type) {
+			case *ssa.Store:
+				if v, ok := fr.regs[x.Addr]; ok {
+					if p, ok := v.(VPtr); ok {
+						et := x.Addr.Type().(*types.Pointer).Elem()
+						e.store(st, p, e.havoc(st, et, "loopvar"))
+					}
+				} else if g, ok := x.Addr.(*ssa.Global); ok {
+					cell := e.globalCell(st, g)
+					st.heap[cell] = e.havoc(st, g.Type().(*types.Pointer).Elem(), "loopglobal")
+				}
+			case *ssa.MapUpdate:
+				if v, ok := fr.regs[x.Map]; ok {
+					e.havocMap(st, v)
+				}
+			case *ssa.Call:
+				if bi, ok := x.Call.Value.(*ssa.Builtin); ok && bi.Name() == "delete" {
+					if v, ok := fr.regs[x.Call.Args[0]]; ok {
+						e.havocMap(st, v)
+					}
+				}
+			}
+		}
+	}
+	for _, ins := range header.Instrs {
+		if phi, ok := ins.(*ssa.Phi); ok {
+			fr.regs[phi] = e.havoc(st, phi.Type(), "loopphi")
+		}
+	}
+}
+
+func (e *Engine) havocMap(st *State, v Value) {
+	mv, ok := v.(VMap)
+	if !ok {
+		return
+	}
+	obj, ok := st.heap[mv.Cell].(*MapObj)
+	if !ok {
+		return
+	}
+	n := obj.clone()
+	if n.Struct {
+		n.Entries = map[string]Value{}
+		n.KeyTerms = map[string]Term{}
+		n.Fresh = false
+		n.Havocked = true
+	} else {
+		n.Arr = e.fresh(st, "maphavoc", obj.Arr.Sort)
+		n.Fresh = false
+	}
+	st.heap[mv.Cell] = n
+}
+
+// addSideObl records an obligation generated in the middle of a path (loop invariants, call-site requires).
+func (e *Engine) addSideObl(st *State, cl Clause, phase string, goal Term) {
+	tmp := st.clone()
+	e.instantiateAll(tmp, nil, []Term{goal})
+	e.sideObls = append(e.sideObls, sideObl{id: cl.Name + "." + phase, kind: "invariant", clause: cl.Src, props: cl.Props, line: cl.Line,
+		header: e.scriptHeader(tmp, nil), goal: goal})
 }
 
 func sqlRowsNext(e *Engine, st *State, args []Value, depth int, pos string, k func(*State, Value)) {
